@@ -124,8 +124,8 @@ func GenConfig(seed uint64, opt core.Options) *Config {
 	// knobs (small so that wrap-arounds, rotations and queues happen inside a run)
 	pick := func(name string, vals ...uint64) { c.Knobs[name] = vals[rng.Intn(len(vals))] }
 	pick("SLOTS_PER_HISTORICAL_ROOT", 8, 16, 64)
-	pick("EPOCHS_PER_HISTORICAL_VECTOR", 8, 16, 64)
-	pick("EPOCHS_PER_SLASHINGS_VECTOR", 4, 8, 64)
+	pick("EPOCHS_PER_HISTORICAL_VECTOR", 8, 16, 64, 12, 65) // (not only powers of two)
+	pick("EPOCHS_PER_SLASHINGS_VECTOR", 4, 8, 64, 5, 12)
 	pick("EPOCHS_PER_ETH1_VOTING_PERIOD", 1, 2, 4)
 	pick("EPOCHS_PER_SYNC_COMMITTEE_PERIOD", 1, 2, 3, 8)
 	pick("SYNC_COMMITTEE_SIZE", 4, 8, 12, 16, 32)
@@ -133,7 +133,7 @@ func GenConfig(seed uint64, opt core.Options) *Config {
 	pick("CHURN_LIMIT_QUOTIENT", 8, 32, 65536)
 	pick("MAX_PER_EPOCH_ACTIVATION_CHURN_LIMIT", 1, 2, 8)
 	pick("SHARD_COMMITTEE_PERIOD", 0, 1, 2)
-	pick("MIN_VALIDATOR_WITHDRAWABILITY_DELAY", 1, 2, 4)
+	pick("MIN_VALIDATOR_WITHDRAWABILITY_DELAY", 1, 2, 4, 12) // (12: longer than the small slashings vectors)
 	pick("SHUFFLE_ROUND_COUNT", 0, 1, 10, 90)
 	pick("TARGET_COMMITTEE_SIZE", 1, 2, 4)
 	pick("MAX_COMMITTEES_PER_SLOT", 1, 2, 4)
@@ -154,6 +154,9 @@ func GenConfig(seed uint64, opt core.Options) *Config {
 	}
 	if c.Knobs["SLOTS_PER_HISTORICAL_ROOT"] < c.SPE*2 {
 		c.Knobs["SLOTS_PER_HISTORICAL_ROOT"] = c.SPE * 2
+	}
+	if rng.Chance(1, 4) {
+		c.Knobs["SLOTS_PER_HISTORICAL_ROOT"] = c.SPE * 3 // a whole number of epochs that is not a power of two
 	}
 	if rng.Chance(1, 4) {
 		c.Knobs["EJECTION_BALANCE"] = 31_000_000_000
@@ -393,6 +396,7 @@ type World struct {
 	rng         *core.Rng
 	dec         *beacon.ForkDecoder
 	gvr         common.Root
+	heldUntil   map[*phase0.Attestation]uint64 // votes held back for a late inclusion (0 = not held)
 	genesisTime common.Timestamp
 	// modelRoot: the state root the specification model gives a block on a pre-state (set by the
 	// simulation when the model is in use)
@@ -434,7 +438,7 @@ func fnvRoot(tag string, n uint64) (r common.Root) {
 func NewWorld(cfg *Config, res *core.Result) (*World, error) {
 	w := &World{cfg: cfg, spec: cfg.BuildSpec(), res: res, blocks: map[common.Root]*blockRec{},
 		syncMsgs: map[common.Root][]int{}, syncSigs: map[common.Root]map[int]common.BLSSignature{},
-		attDom: map[*phase0.Attestation][32]byte{}, attIn: map[*phase0.Attestation][]common.Root{}, syncDom: map[common.Root][32]byte{}, exited: map[int]bool{}, slashedV: map[int]bool{}, changedV: map[int]bool{}, deposits: &depositTree{}}
+		heldUntil: map[*phase0.Attestation]uint64{}, attDom: map[*phase0.Attestation][32]byte{}, attIn: map[*phase0.Attestation][]common.Root{}, syncDom: map[common.Root][32]byte{}, exited: map[int]bool{}, slashedV: map[int]bool{}, changedV: map[int]bool{}, deposits: &depositTree{}}
 	w.rng = core.NewRng(cfg.Seed ^ 0x5eed)
 	w.keys = newKeyring(cfg.Validators + 24) // (genesis validators first, then the depositors' keys)
 	w.spec.ExecutionEngine = &scriptedEngine{}
@@ -810,6 +814,17 @@ func (w *World) produce(parent *blockRec, slot uint64) (*blockRec, error) {
 		if as+uint64(w.spec.MIN_ATTESTATION_INCLUSION_DELAY) > slot || uint64(len(atts)) >= uint64(w.spec.MAX_ATTESTATIONS) {
 			continue
 		}
+		// deneb (EIP-7045): a vote may be included more than one epoch of slots after it was cast, as long
+		// as it is from the previous epoch: now and then a vote is held back that long
+		if _, decided := w.heldUntil[a]; !decided {
+			w.heldUntil[a] = 0
+			if fidx >= 4 && w.cfg.has("late_atts") && w.rng.Chance(1, 4) {
+				w.heldUntil[a] = as + w.cfg.SPE + 1
+			}
+		}
+		if slot < w.heldUntil[a] {
+			continue
+		}
 		if !w.onChain(parent, a.Data.BeaconBlockRoot) {
 			continue
 		}
@@ -846,6 +861,9 @@ func (w *World) produce(parent *blockRec, slot uint64) (*blockRec, error) {
 			continue // included by a later block instead
 		}
 		seen[key] = true
+		if as+w.cfg.SPE < slot {
+			w.res.Stat("probe_attestations_included_more_than_an_epoch_of_slots_late", 1)
+		}
 		atts = append(atts, *a)
 		picked = append(picked, a)
 	}
